@@ -539,6 +539,22 @@ func suiteSearch(h *H) {
 			}
 			tag = "false-alarm"
 		}
+		if h.rng.Intn(5) == 0 && bl >= 3 && len(basis) >= 4*bl {
+			// a block X' that follows a matched block and has the weak sum and length of the block X the target
+			// continues with, but other bytes: basis …P|X'|X…, target …P|X… (a sender that prefers the block after
+			// the previous match must still compare the strong sum)
+			nb := len(basis) / bl
+			j := h.rng.Intn(nb - 2)
+			o := h.rng.Intn(bl - 2)
+			copy(basis[(j+1)*bl:(j+2)*bl], basis[(j+2)*bl:(j+3)*bl])
+			basis[(j+1)*bl+o] += 1
+			basis[(j+1)*bl+o+1] -= 2
+			basis[(j+1)*bl+o+2] += 1
+			sh, sums = refSums(seed, basis, bl, cs)
+			honest = basis
+			target = append(append([]byte{}, basis[:(j+1)*bl]...), basis[(j+2)*bl:]...)
+			tag = "adjacent-collision"
+		}
 		if h.rng.Intn(8) == 0 && len(sums) > 1 {
 			// a remainder block declared although the file is a multiple (remainder reused mid-file is legal for the sender)
 			sh.rem = int32(1 + h.rng.Intn(bl))
